@@ -183,6 +183,33 @@ def _unroll_const_loops(tree: ast.Module) -> None:
         if isinstance(st, ast.Assign) and len(st.targets) == 1 and isinstance(st.targets[0], ast.Name) and isinstance(st.value, (ast.Tuple, ast.List)) \
                 and st.value.elts and all(isinstance(e, ast.Constant) and isinstance(e.value, str) for e in st.value.elts):
             consts[st.targets[0].id] = [e.value for e in st.value.elts]
+    # function-local tables and literal tuples count as well when the loop variable selects an attribute or an HDF5 key
+    # (getattr/setattr/hasattr(obj, var), mapping[var], var in mapping): that is the table-driven writer/reader idiom
+    def selects(body_nodes, var):
+        for x in body_nodes:
+            for y in ast.walk(x):
+                if isinstance(y, ast.Call) and isinstance(y.func, ast.Name) and y.func.id in ("getattr", "setattr", "hasattr") and len(y.args) >= 2 \
+                        and isinstance(y.args[1], ast.Name) and y.args[1].id == var:
+                    return True
+        return False
+    for fn in ast.walk(tree):
+        if not isinstance(fn, ast.FunctionDef):
+            continue
+        local_consts = {}
+        for st in ast.walk(fn):
+            if isinstance(st, ast.Assign) and len(st.targets) == 1 and isinstance(st.targets[0], ast.Name) and isinstance(st.value, (ast.Tuple, ast.List)) \
+                    and st.value.elts and all(isinstance(e, ast.Constant) and isinstance(e.value, str) for e in st.value.elts):
+                local_consts[st.targets[0].id] = st.value
+        for lp in ast.walk(fn):
+            if isinstance(lp, ast.For) and isinstance(lp.target, ast.Name):
+                it = lp.iter
+                if isinstance(it, ast.Name) and it.id in local_consts and it.id not in consts:
+                    it = local_consts[it.id]
+                if isinstance(it, (ast.Tuple, ast.List)) and it.elts and all(isinstance(e, ast.Constant) and isinstance(e.value, str) for e in it.elts) \
+                        and selects(lp.body, lp.target.id):
+                    key = f"__lit{id(lp)}"
+                    consts[key] = [e.value for e in it.elts]
+                    lp.iter = ast.copy_location(ast.Name(id=key, ctx=ast.Load()), lp.iter)
     if not consts:
         return
 
@@ -236,6 +263,56 @@ def _unroll_const_loops(tree: ast.Module) -> None:
                 return ast.copy_location(ast.BoolOp(op=ast.And() if node.func.id == "all" else ast.Or(), values=node.args[0].elts), node)
             return node
 
+    class FoldConst(ast.NodeTransformer):
+        """After unrolling: `"a" != "b"` -> True, `if True: A else: B` -> A, `f(**{"k": v})` -> f(k=v)."""
+
+        def visit_Compare(self, node):
+            self.generic_visit(node)
+            if len(node.ops) == 1 and isinstance(node.left, ast.Constant) and isinstance(node.left.value, str):
+                c = node.comparators[0]
+                op = node.ops[0]
+                if isinstance(c, ast.Constant) and isinstance(c.value, str) and isinstance(op, (ast.Eq, ast.NotEq)):
+                    v = (node.left.value == c.value) if isinstance(op, ast.Eq) else (node.left.value != c.value)
+                    return ast.copy_location(ast.Constant(value=v), node)
+                if isinstance(c, (ast.Tuple, ast.List, ast.Set)) and all(isinstance(e, ast.Constant) for e in c.elts) and isinstance(op, (ast.In, ast.NotIn)):
+                    v = node.left.value in [e.value for e in c.elts]
+                    return ast.copy_location(ast.Constant(value=v if isinstance(op, ast.In) else not v), node)
+            return node
+
+        def visit_Call(self, node):
+            self.generic_visit(node)
+            new_kw = []
+            for k in node.keywords:
+                if k.arg is None and isinstance(k.value, ast.Dict) and k.value.keys and all(
+                        isinstance(x, ast.Constant) and isinstance(x.value, str) and x.value.isidentifier() for x in k.value.keys):
+                    for kk, vv in zip(k.value.keys, k.value.values):
+                        new_kw.append(ast.keyword(arg=kk.value, value=vv))
+                else:
+                    new_kw.append(k)
+            node.keywords = new_kw
+            return node
+
+        def _prune(self, stmts):
+            out = []
+            for st in stmts:
+                if isinstance(st, ast.If) and isinstance(st.test, ast.Constant) and isinstance(st.test.value, bool):
+                    out.extend(st.body if st.test.value else st.orelse)
+                elif isinstance(st, ast.If) and isinstance(st.test, ast.UnaryOp) and isinstance(st.test.op, ast.Not) \
+                        and isinstance(st.test.operand, ast.Constant) and isinstance(st.test.operand.value, bool):
+                    out.extend(st.orelse if st.test.operand.value else st.body)
+                else:
+                    out.append(st)
+            return out
+
+        def generic_visit(self, node):
+            super().generic_visit(node)
+            for fld in ("body", "orelse", "finalbody"):
+                v = getattr(node, fld, None)
+                if isinstance(v, list) and v and isinstance(v[0], ast.stmt):
+                    nv = self._prune(v)
+                    setattr(node, fld, nv if nv or fld != "body" else [ast.Pass()])
+            return node
+
     u = Unroll()
     # mark unrolled generator lists so that all()/any() can be folded
     orig_comp = u._comp
@@ -247,6 +324,7 @@ def _unroll_const_loops(tree: ast.Module) -> None:
         return r
     u._comp = comp_mark
     u.visit(tree)
+    FoldConst().visit(tree)
 
 
 def _inline_trivial_helpers(tree: ast.Module) -> None:
